@@ -10,6 +10,7 @@ for d in $ids; do
   git -C /repo apply "$PWD/seeded/$d/patch.diff" || { echo "$d: patch does not apply"; continue; }
   line=$(./check $p 2>/dev/null | tail -1)
   git -C /repo checkout -- .
+  git checkout -q -- evidence/$p.json 2>/dev/null   # evidence written while a seeded change was applied is never kept
   python3 - "$p" "$line" "$d" <<'PY'
 import json, glob, sys
 p, line, d = sys.argv[1], sys.argv[2], sys.argv[3]
